@@ -434,6 +434,36 @@ func (b *TB) BvBin(op Op, x, y *Term) *Term {
 			return b.Const(w, v)
 		}
 	}
+	// division / remainder by a constant power of two: shifts and masks (bit-blasted division
+	// circuits are needlessly expensive for these)
+	if y.IsConst() && y.Val != 0 && y.Val&(y.Val-1) == 0 && sext(y.Val, w) > 0 {
+		k := uint64(0)
+		for (uint64(1) << k) != y.Val {
+			k++
+		}
+		kc := b.Const(w, k)
+		switch op {
+		case OpUDiv:
+			return b.BvBin(OpLShr, x, kc)
+		case OpURem:
+			return b.BvBin(OpBAnd, x, b.Const(w, y.Val-1))
+		case OpSDiv, OpSRem:
+			if k == 0 {
+				if op == OpSDiv {
+					return x
+				}
+				return b.Const(w, 0)
+			}
+			// q = (x + ((x >>a (w-1)) & (2^k-1))) >>a k   (rounds toward zero)
+			sign := b.BvBin(OpAShr, x, b.Const(w, uint64(w-1)))
+			bias := b.BvBin(OpBAnd, sign, b.Const(w, y.Val-1))
+			q := b.BvBin(OpAShr, b.BvBin(OpAdd, x, bias), kc)
+			if op == OpSDiv {
+				return q
+			}
+			return b.BvBin(OpSub, x, b.BvBin(OpShl, q, kc))
+		}
+	}
 	// identities
 	switch op {
 	case OpAdd, OpBOr, OpBXor:
